@@ -227,3 +227,8 @@ CHECKS["C11"] = UnionCheck()
 from harness.checks_enum import EnumCheck  # noqa: E402
 
 CHECKS["C12"] = EnumCheck()
+
+
+from harness.checks_ptr import PtrCheck  # noqa: E402
+
+CHECKS["C16"] = PtrCheck()
